@@ -22,7 +22,7 @@ import (
 // ---- C04: decoders fail closed: no fabricated data, bounded memory on bad input ----
 
 func init() {
-	setTier("C04", 30000, 400, 1500000, 1800)
+	setTier("C04", 20000, 400, 1200000, 1800)
 	levelOf["C04"] = "fault_enumeration"
 	addressSpaceLimit["C04"] = 8 << 30
 	ruleOf["C04"] = "one run = one valid encoding generated from the tape (a value of any of the 21 tags nested to depth 3, a registered pack, an unregistered SM pack, a step stream, a transaction record, an int-int map or a typed list) subjected to (a) truncation at every byte offset (for encodings above 1 KiB: every offset in the first 256 and last 64 bytes, strided in between), decoded both from a buffer and through a simulated connection that delivers seeded fragments and then EOF/reset, and (b) overwrite of every byte with {00,7f,80,fe,ff} plus 4-byte and 8-byte big-endian hostile length patterns at every offset (exhaustive up to 256 bytes, strided above); evaluations = runs; distinct_nontrivial = distinct cells (decoder kind, fault kind, offset class, outcome) reached, every one of which executed real decoder code on a faulty input"
